@@ -173,6 +173,7 @@ theorem segMatchValues_mono {rec rec' : Spec.SegRec} {env : Env} {negate : Bool}
     | num q => simp only [Spec.segMatchValues] at hne ⊢; exact ih hne
     | arr xs => simp only [Spec.segMatchValues] at hne ⊢; exact ih hne
     | obj kvs => simp only [Spec.segMatchValues] at hne ⊢; exact ih hne
+    | raw w => simp only [Spec.segMatchValues] at hne ⊢; exact ih hne
 
 theorem clauseMatch_mono {rec rec' : Spec.SegRec} {env : Env} {chain : List String}
     (h : SegRecLe rec rec') (c : Clause) (hne : Spec.clauseMatch rec env chain c ≠ .oof) :
@@ -508,6 +509,7 @@ theorem segMatchValues_sameEv {rec : SegRec} {env : Env} (hrec : SegRecSameEv re
     | num q => unfold segMatchValues; exact ih st
     | arr xs => unfold segMatchValues; exact ih st
     | obj kvs => unfold segMatchValues; exact ih st
+    | raw w => unfold segMatchValues; exact ih st
 
 theorem clauseMatch_sameEv {rec : SegRec} {env : Env} (hrec : SegRecSameEv rec)
     (chain : List String) (c : Clause) (st : St) :
